@@ -72,6 +72,14 @@ func init() {
 				return f(toks[1:])
 			}()
 			runtime.ReadMemStats(&ms)
+			// results held in this process (holdOutput) that a later call here has written over: reported to the parent
+			heldMu.Lock()
+			sweepHeld()
+			for _, ev := range aliasEvents {
+				res += "\talias=" + ev.hexv + ":" + hx(ev.b)
+			}
+			aliasEvents = nil
+			heldMu.Unlock()
 			res += fmt.Sprintf("\talloc=%d", ms.TotalAlloc-before)
 		}
 		w.WriteString(res)
@@ -189,6 +197,18 @@ func workerCall(name string, args []string) string {
 			in := 0
 			for _, x := range args {
 				in += len(x)
+			}
+			for {
+				k := strings.LastIndex(r.line, "\talias=")
+				if k < 0 {
+					break
+				}
+				if p := strings.SplitN(r.line[k+7:], ":", 2); len(p) == 2 {
+					heldMu.Lock()
+					aliasEvents = append(aliasEvents, heldOut{b: unhx(p[1]), hexv: p[0]})
+					heldMu.Unlock()
+				}
+				r.line = r.line[:k]
 			}
 			if n > allocAllowance(uint64(in/2+1)) {
 				workerMu.Lock()
